@@ -5,6 +5,7 @@ import (
 	"bytes"
 	"compress/zlib"
 	"encoding/hex"
+	"encoding/json"
 	"fmt"
 	"io"
 	"os"
@@ -173,6 +174,10 @@ func emitLoad(c *corrCtx, class, name string, data []byte) string {
 func (c *corrCtx) direct(key, what string, fields map[string]interface{}) {
 	m := map[string]interface{}{"key": key, "what": what}
 	for k, v := range fields {
+		// values JSON cannot carry (NaN, infinities, channels, ...) are recorded as text
+		if _, err := json.Marshal(v); err != nil {
+			v = fmt.Sprintf("%v", v)
+		}
 		m[k] = v
 	}
 	lst, _ := c.extra["direct"].([]interface{})
